@@ -15,7 +15,7 @@ Evaluate ==
   /\ i > 0 /\ ~done
   /\ LET r == Run(Progs[i], Fuel) IN
      PrintT(<<"EXPECT", ToJson([id |-> Progs[i].id, outcome |-> r.outcome, out |-> r.out,
-                                ek |-> r.ek, line |-> r.line, value |-> r.value])>>)
+                                ek |-> r.ek, line |-> r.line, value |-> r.value, watch |-> r.watch])>>)
   /\ done' = TRUE /\ i' = i
 Next == Pick \/ Evaluate
 =============================================================================
